@@ -520,12 +520,11 @@ func oracleC34(v *View, vd *Verdict) {
 		switch {
 		case !connected:
 			lab = "before-connect"
+			// no CONNECT at all: only the broker's patience ends the session; once a CONNECT was consumed
+			// the gateway's own connect timeout does, however patient the broker is
 			deadline = sv.AcceptT + bp.NoConnectMs*nsMs
-			if connectT >= 0 && connectT+connectTimeout > deadline {
+			if connectT >= 0 {
 				deadline = connectT + connectTimeout
-			}
-			if lastG2B >= 0 && lastG2B+ka*3/2 > deadline && ka > 0 {
-				deadline = lastG2B + ka*3/2
 			}
 		case w.st == stAsleep || w.sleepReq:
 			lab = "asleep"
@@ -595,14 +594,31 @@ func genC34(g *Gen, idx int) *Plan {
 			maxSleep = int64(d)
 		}
 	}
+	// with authentication on, a client that means it sends AUTH after its CONNECT
+	if g.Bool(0.3) {
+		p.Cfg.Auth = true
+		p.Family += "-auth"
+		var ops []PeerOp
+		shift := int64(0)
+		for _, o := range sg.ops {
+			o.AtMs += shift
+			ops = append(ops, o)
+			if o.Pkt.Type == refsn.CONNECT && g.Bool(0.8) {
+				d := g.Range(20, 200)
+				shift += d
+				ops = append(ops, PeerOp{AtMs: o.AtMs + d, Pkt: authPkt(g, 0)})
+			}
+		}
+		sg.ops = ops
+	}
 	// silence at a random event index: drop the tail of the script
 	cut := int(g.Range(1, int64(len(sg.ops))))
 	sg.ops = sg.ops[:cut]
 	last := sg.ops[len(sg.ops)-1].AtMs
 	p.Peers = []PeerPlan{{Name: "p1", Ops: sg.ops, Policy: PeerPolicy{SilentAtMs: last + 1, WillTopic: "w/t", WillMsg: []byte("bye")}}}
 	p.Broker.EnforceKA = true
-	p.Broker.NoConnectMs = 5000
-	p.Cfg.HorizonMs = last + 6000 + maxSleep*1000 + int64(ka)*1500 + 3000
+	p.Broker.NoConnectMs = []int64{5000, 5000, 20000}[g.Intn(3)]
+	p.Cfg.HorizonMs = last + 1000 + p.Broker.NoConnectMs + maxSleep*1000 + int64(ka)*1500 + 3000
 	return p
 }
 
@@ -617,7 +633,7 @@ func init() {
 		Rule:   "same script x cause space as C13; an MQTT DISCONNECT on a session's broker stream must be the translation of a consumed plain MQTT-SN DISCONNECT; non-trivial = session ended or an MQTT DISCONNECT was written",
 		Gen:    func(g *Gen, idx int) *Plan { p := genC13(g, idx); p.Family = strings.Replace(p.Family, "C13", "C14", 1); return p }, Oracle: oracleC14, Quick: 1280, Thorough: 128000})
 	Register(&Check{ID: "C34", Level: "fault_enumeration",
-		Rule:   "the C13 session scripts (plus: long sleep, then a short one announced while asleep) cut at a seeded event index after which the peer is silent forever; broker model enforces keep-alive (drops after 1.5 x KA without a packet) and drops connections without CONNECT after 5 s; keep-alive 3-12 s, sleeps 1-25 s; deadline by state: accept+5 s / last CONNECT+5 s before connecting, last activity + 1.5 KA active/awake, + announced sleep asleep, + 200 ms poll + 3 ms; non-trivial = every session",
+		Rule:   "the C13 session scripts (plus: long sleep, then a short one announced while asleep) cut at a seeded event index after which the peer is silent forever; broker model enforces keep-alive (drops after 1.5 x KA without a packet) and drops connections without CONNECT after 5 s (20 s in a third of the runs); keep-alive 3-12 s, sleeps 1-25 s; deadline by state: accept + the broker's patience when no CONNECT was ever consumed, last CONNECT + 5 s (the gateway's own timeout) before connecting otherwise, last activity + 1.5 KA active/awake, + announced sleep asleep, + 200 ms poll + 3 ms; non-trivial = every session",
 		Gen:    genC34, Oracle: oracleC34, Quick: 840, Thorough: 56000})
 }
 
